@@ -137,7 +137,7 @@ Proof.
 Qed.
 
 Lemma binop_sound : forall op t1 t2 t a b, binop_ty P op t1 t2 = Ok t -> mem P a t1 -> mem P b t2 ->
-  match eval_binop op a b with Val v => mem P v t | Exn e => type_failure e = false | NoFuel => True end.
+  match eval_binop op a b with Val v => mem P v t | Exn e => exn_ok P e | NoFuel => True end.
 Proof.
   intros op t1 t2 t a b H Ha Hb. unfold binop_ty in H.
   destruct (is_subtype P t1 TInt) eqn:I1; destruct (is_subtype P t2 TInt) eqn:I2;
@@ -214,7 +214,7 @@ Lemma list_sound : forall f, expr_ok_at P f -> forall es d fr ats en,
   env_decl_ok P en d -> env_frame_ok P en fr ->
   match eval_list (eval P f en) es with
   | Val vs => mems P vs ats
-  | Exn e => type_failure e = false
+  | Exn e => exn_ok P e
   | NoFuel => True
   end.
 Proof.
